@@ -299,3 +299,214 @@ class NetProp:
 
 
 REGISTRY["C17"] = NetProp()
+
+
+# =========================================================================== schedule walks (C09, C10, C13)
+import walks  # noqa: E402
+
+WALK_INVS = {
+    "C09": ["P_C09_tour", "P_C09_sched", "P_C09_viol", "P_C09_trans", "P_C09_depot"],
+    "C10": ["P_C10_tours", "P_C10_formations", "P_C10_limits", "P_C10_listings", "P_C10_cycles"],
+    "C13": ["P_C13_nopanic", "P_C13_input", "P_C13_refusal", "P_C13_enabled", "P_C13_effect", "P_C13_cycles"],
+}
+PIPE_STAGE_INVS = {
+    "C09": ["P_stage_caches_tour", "P_stage_caches_sched", "P_stage_caches_viol", "P_stage_caches_trans",
+            "P_stage_caches_depot"],
+    "C10": ["P_stage_inv"],
+}
+ALL_OPS = ["spawn_vehicle_for_path", "spawn_vehicle_to_replace_dummy_tour", "replace_vehicle_by_dummy",
+           "add_path_to_vehicle_tour", "remove_segment", "override_reassign", "fit_reassign", "improve_depots",
+           "reassign_end_depots_greedily", "reassign_end_depots_consistent_with_transitions",
+           "recompute_transitions_for", "set_next_day_transitions"]
+
+
+class WalkProp:
+    def collect(self, prop, info, out, instance_of):
+        viols = run_tlc_chunks("TraceSched", WALK_INVS[prop], info["chunks"], "TraceSched/%s" % prop, out)
+        by_chunk = {}
+        for m in info["instances"]:
+            by_chunk.setdefault(m["chunk"], []).append(m)
+        traces = {}
+        for ci, v in viols:
+            if ci not in traces:
+                traces[ci] = common.read_ndjson(info["chunks"][ci])
+            tr = traces[ci]
+            m = [x for x in by_chunk[ci] if x["first"] <= v["l"] <= x["last"]][0]
+            ev = tr[v["l"] - 1]
+            inst = instance_of(m["name"])
+            op = ev.get("op", ev["ev"])
+            sig = "%s:%s" % (v["name"], op)
+            if ev.get("panic"):
+                sig += ":panic@" + ev.get("msg", "").split(" @ ")[-1]
+            # the history up to the offending call (operation names and arguments)
+            hist = [{"op": e["op"], "args": e["args"], "ok": e["ok"]} for e in tr[m["first"] - 1:v["l"]]
+                    if e["ev"] == "op"]
+            payload = {"property": prop, "kind": "walk", "formula": v["name"], "signature": sig,
+                       "instance": inst, "input": gen.render(inst), "steps": info["steps"], "seed": info["seed"],
+                       "walk_index": info["index"][m["name"]], "event_line": v["l"] - m["first"],
+                       "call": {k: ev.get(k) for k in ("op", "args", "ok", "panic", "msg", "ret")},
+                       "history": hist[-40:]}
+            detail = "op=%s args=%s ok=%s %s" % (op, json.dumps(ev.get("args")), ev.get("ok"), ev.get("msg", "")[:80])
+            out.findings.append(Finding(prop, v["name"], "%s@%d" % (m["name"], v["l"] - m["first"]), sig, detail, payload))
+        out.traces += len(info["instances"])
+
+    def run(self, prop, tier, seed):
+        out = Outcome()
+        info = walks.corpus(tier, seed)
+        insts = None
+
+        def instance_of(name):
+            nonlocal insts
+            if insts is None:
+                insts = walks.walk_instances(seed, info["n"])
+            return insts[info["index"][name]]
+
+        self.collect(prop, info, out, instance_of)
+        ops = {}
+        for m in info["instances"]:
+            for k, c in m["ops"].items():
+                ops[k] = ops.get(k, 0) + c
+        out.coverage["calls"] = ops
+        out.coverage["walks"] = len(info["instances"])
+        out.coverage["formulas"] = list(WALK_INVS[prop])
+        missing = [o for o in ALL_OPS if not ops.get(o + ":ok")]
+        if missing:
+            raise ToolError("vacuous walk corpus: operations never succeeded: %s" % missing)
+        # stage snapshots and local-search steps of the pipeline corpus are validated as well
+        if prop in PIPE_STAGE_INVS:
+            pinfo = pipeline.corpus(tier, seed, "release")
+            pv = run_tlc_chunks("TracePipe", PIPE_STAGE_INVS[prop], pinfo["chunks"], "TracePipe/%s" % prop, out)
+            by_chunk = {}
+            for m in pinfo["instances"]:
+                by_chunk.setdefault(m["chunk"], []).append(m)
+            for ci, v in pv:
+                m = [x for x in by_chunk[ci] if x["first"] <= v["l"] <= x["last"]][0]
+                inst = gen.gen_instance(pinfo["seed"], pinfo["index"][m["name"]])
+                payload = {"property": prop, "kind": "pipe", "formula": v["name"], "profile": "release",
+                           "signature": v["name"], "instance": inst, "input": gen.render(inst)}
+                out.findings.append(Finding(prop, v["name"], m["name"] + "/pipeline", v["name"], "stage snapshot", payload))
+            out.traces += len(pinfo["instances"])
+            out.coverage["pipeline_instances"] = len(pinfo["instances"])
+        m0 = info["instances"][0]
+        tr0 = common.read_ndjson(info["chunks"][0])
+        out.samples.append({"walk": m0["name"], "calls": [
+            {"op": e["op"], "args": e["args"], "ok": e["ok"]} for e in tr0[m0["first"] - 1:m0["last"]]
+            if e["ev"] == "op"][:8]})
+        out.assumptions = [
+            "histories are adaptive random walks over all 12 public modifications starting from Schedule::empty; "
+            "arguments are drawn from the implementation's current state (valid and some refusable ones)",
+            "the contract of each call is spec/Schedule.tla (deterministic where documented, relational for depot choice, "
+            "greedy fitting and cycle construction); defaulted ('unlimited') depots use the capacity the loaded network reports",
+            "walks never exhaust the artificial overflow depot",
+        ]
+        return out
+
+    def replay(self, prop, path):
+        with open(path) as f:
+            payload = json.load(f)
+        out = Outcome()
+        if payload.get("kind") == "pipe":
+            inst = payload["instance"]
+            info = pipeline.corpus("quick", 0, "release", instances=[inst])
+            pv = run_tlc_chunks("TracePipe", PIPE_STAGE_INVS[prop], info["chunks"], "TracePipe/%s" % prop, out)
+            for ci, v in pv:
+                out.findings.append(Finding(prop, v["name"], inst["name"], v["name"], "stage snapshot", payload))
+            return out
+        inst = payload["instance"]
+        # same walk: same instance position (seed derivation uses the index) is reproduced by
+        # regenerating the corpus prefix deterministically
+        idx = payload["walk_index"]
+        seed = payload["seed"]
+        insts = walks.walk_instances(seed, idx + 1)
+        info = walks.corpus("quick", seed, instances=insts, steps=payload["steps"])
+        self.collect(prop, info, out, lambda name: insts[info["index"][name]])
+        out.findings = [f for f in out.findings if f.case.startswith(inst["name"] + "@")]
+        return out
+
+    def selftest(self, prop, tier, seed):
+        import selftest
+        return selftest.walk(prop, tier, seed)
+
+
+for _p in ("C09", "C10", "C13"):
+    REGISTRY[_p] = WalkProp()
+
+
+# =========================================================================== C12 tour edits
+import tours as tours_mod  # noqa: E402
+
+C12_INVS = ["P_C12_nopanic", "P_C12_loads", "P_C12_mat", "P_C12_insert", "P_C12_conflict", "P_C12_position",
+            "P_C12_removable", "P_C12_remove", "P_C12_subpath", "P_C12_depots", "P_C09_tourfig"]
+
+
+class TourProp:
+    def validate(self, prop, cases, out, d, stride=1):
+        by_name = tours_mod.execute(cases, stride=stride)
+        chunks, index = tours_mod.build_traces(cases, by_name, d)
+        viols = run_tlc_chunks("TraceTour", C12_INVS, chunks, "TraceTour", out, max_parallel=12, workers=1)
+        traces = {}
+        ops = {}
+        for ci, v in viols:
+            if ci not in traces:
+                traces[ci] = common.read_ndjson(chunks[ci])
+            ev = traces[ci][v["l"] - 1]
+            first, last, k = [x for x in index[ci] if x[0] <= v["l"] <= x[1]][0]
+            c = cases[k]
+            sig = "%s:%s" % (v["name"], ev.get("op", ev["ev"]))
+            payload = {"property": prop, "kind": "tour", "formula": v["name"], "signature": sig,
+                       "case": {"I": c["I"], "tours": c["tours"], "dummies": c["dummies"], "paths": c["paths"]},
+                       "event": {k2: ev[k2] for k2 in ev if k2 != "fig"}}
+            detail = json.dumps({k2: ev[k2] for k2 in ev if k2 in ("op", "tour", "path", "s", "e", "res", "removed", "ok", "msg")})
+            out.findings.append(Finding(prop, v["name"], "net%d@%d" % (k, v["l"] - first), sig, detail, payload))
+        for ci, p in enumerate(chunks):
+            if ci not in traces:
+                pass
+        counts = {}
+        for name, evs in by_name.items():
+            for e in evs:
+                counts[e.get("op", e["ev"])] = counts.get(e.get("op", e["ev"]), 0) + 1
+        for p in chunks:
+            os.remove(p)
+        out.traces += len(cases)
+        return counts
+
+    def run(self, prop, tier, seed):
+        out = Outcome()
+        d = common.cache_dir("tourcases", tier)
+        cases = tours_mod.run_gen(tier, out)
+        counts = self.validate(prop, cases, out, d)
+        out.coverage["networks"] = len(cases)
+        out.coverage["executed_cases"] = counts
+        out.coverage["bounds"] = tours_mod.bounds(tier)
+        out.coverage["exhaustive"] = True
+        out.coverage["formulas"] = C12_INVS + ["Gen_Tour!Laws"]
+        need = ["insert", "remove", "sub_path", "removable", "conflict", "lnr", "rsd", "red", "mat"]
+        missing = [o for o in need if not counts.get(o)]
+        if missing:
+            raise ToolError("vacuous C12 corpus: no case of %s" % missing)
+        out.samples.append({"network": cases[0]["I"]["trips"], "slots": cases[0]["I"]["slots"],
+                            "tours": cases[0]["tours"][:3], "paths": cases[0]["paths"][:4]})
+        out.assumptions = [
+            "exhaustive: every network with at most MaxActs activities (2 locations, the stated time grid, all 12 "
+            "configurations of shunting / forbidden dead-heads / asymmetric matrix), every valid tour (2 depot pairs) "
+            "and dummy tour, every path (4 depot variants) and every segment",
+            "tours are materialised through Schedule::spawn_vehicle_for_path / replace_vehicle_by_dummy and read with tour_of",
+            "the schedule-level use of the same edits on random instances is validated by C13's walks",
+        ]
+        return out
+
+    def replay(self, prop, path):
+        with open(path) as f:
+            payload = json.load(f)
+        out = Outcome()
+        d = os.path.join(common.WORK, "replay_tour_%d" % os.getpid())
+        os.makedirs(d, exist_ok=True)
+        self.validate(prop, [payload["case"]], out, d)
+        return out
+
+    def selftest(self, prop, tier, seed):
+        import selftest
+        return selftest.tour(prop, tier, seed)
+
+
+REGISTRY["C12"] = TourProp()
